@@ -365,6 +365,49 @@ def correspondence(ctx, domain, drv_args, gen_args=(), hx_env=None, ops_text=Non
     return c
 
 
+def recheck_slow_cases(ctx, domain, drv_args, c, max_cases=4):
+    """A mismatch that involves a timeout-like reply (hang / timeout / err / stuck / broken / aborted) is re-run
+    alone with every harness timeout multiplied by 6 (HX_TIMEOUT_SCALE) before it is believed: on a busy machine
+    a slow reply is not a hang.  Cases that agree on the re-run are spliced back; the event is recorded in the
+    evidence (coverage.rechecked_slow_cases)."""
+    if c.err or not c.mismatch or getattr(c, "no_recheck", False):
+        return c
+    slow = re.compile(r"\b(hang|hung|timeout|timed-out|stuck|broken|aborted|unexpected-timeout|err)\b")
+    todo, seen = [], set()
+    for i in c.mismatch:
+        cs = case_of(c, i)
+        if cs[0] in seen:
+            continue
+        seen.add(cs[0])
+        a = c.impl[i] if i < len(c.impl) else ""
+        if not slow.search(a):
+            return c          # a mismatch that is not timing-shaped: believe it
+        todo.append(cs)
+    if len(todo) > max_cases:
+        return c
+    fixed = 0
+    for cs in todo:
+        ops = [c.ops[i] for i in cs]
+        if not ops[0].startswith("case "):
+            return c
+        r = correspondence(ctx, domain, drv_args, hx_env={"HX_TIMEOUT_SCALE": "6"}, ops_text="\n".join(ops) + "\n", timeout=1800)
+        if r.err or r.mismatch or len(r.impl) != len(ops):
+            return c          # reproduces (or cannot be re-run alone): believe it
+        for k, i in enumerate(cs):
+            if i < len(c.impl):
+                c.impl[i] = r.impl[k]
+            if i < len(c.model):
+                c.model[i] = r.model[k]
+                c.flags[i] = r.flags[k]
+        fixed += 1
+    c.mismatch = [i for i in range(max(len(c.ops), len(c.impl), len(c.model)))
+                  if (c.impl[i] if i < len(c.impl) else "<missing>") != (c.model[i] if i < len(c.model) else "<missing>")]
+    ctx.cov["rechecked_slow_cases"] = ctx.cov.get("rechecked_slow_cases", 0) + fixed
+    ctx.notes.append("%d case(s) of %s with a timing-shaped mismatch agreed when re-run alone with 6x timeouts" % (fixed, domain))
+    # restore the run files of the full run for later inspection
+    return c
+
+
 def case_of(c, line_idx):
     for cs in c.cases:
         if cs[0] <= line_idx <= cs[-1]:
@@ -422,6 +465,7 @@ def decide_standard(ctx, corrs, finding_texts=None, require_flag_for_verdict=Tru
                       tag="undetermined", found_input=False)
     # (b) correspondence
     confirmed = {}    # finding id -> replay dict (first confirmed occurrence: impl == model and model flags it)
+    corrs = [(d, a, recheck_slow_cases(ctx, d, a, c)) for d, a, c in corrs]
     for domain, drv_args, c in corrs:
         if c.err:
             ctx.violation("correspondence domain %s could not run: %s" % (domain, c.err),
